@@ -81,13 +81,13 @@ def gen_case(rng):
             c["alpha"] = float(rng.choice(["2", "3", "4", "5"]))
         else:
             c["r"] = round(c["sig"] * rng.uniform(0.05, 0.95), 3)
-            c["alpha"] = float(rng.choice(["2", "2.5", "2.0", "3", "1.5", "4.25", "0.5"]))
+            c["alpha"] = float(rng.choice(["2", "2.5", "2.0", "3", "1.5", "4.25", "0.5", "-1", "-2.5", "8"]))
         c["rc"] = c["sig"]
     else:
         c["r"] = float(common.dec(rng, 0.6, 3.0))
         c["rc"] = float(common.dec(rng, 1.5, 3.5))
         if model == "ipl":
-            c["n"] = float(rng.choice(["12", "10", "4", "6.5", "3.25", "18", "1", "0.5"]))
+            c["n"] = float(rng.choice(["12", "10", "4", "6.5", "3.25", "18", "1", "0.5", "-1", "-2", "-3.5", "0", "36"]))
             c["A"] = float(common.dec(rng, -2.0, 3.0))
     return c
 
@@ -120,7 +120,7 @@ def gen_object_history(rng):
     for m in rng.sample(["lj", "ipl", "hh", "lj", "ipl"], rng.randint(2, 5)):
         st = {"model": m, "via": rng.choice(["method", "caller"])}
         if m == "ipl":
-            st["n"] = float(rng.choice(["12", "10", "4", "6.5"])); st["A"] = float(common.dec(rng, -2.0, 3.0))
+            st["n"] = float(rng.choice(["12", "10", "4", "6.5", "-2", "0"])); st["A"] = float(common.dec(rng, -2.0, 3.0))
         if m == "hh":
             st["alpha"] = float(rng.choice(["2", "3", "4", "2.5"]))
         steps.append(st)
